@@ -66,6 +66,59 @@ example : ∃ c ∈ fns, c.eval less greater (.f64 false) (.flt (.fin 511 2)) = 
 example : ∃ c ∈ fns, c.eval less greater (.int .u64) (.int 18446744073709551615) = some 2147483647 := by
   decide
 
+
+/-! ### monotonicity -/
+
+/-- the order on source values: integers as usual, finite floats as rationals, −Inf below and +Inf above
+    everything (NaN is not ordered) -/
+def Val.le : Val → Val → Prop
+  | .int v, .int w => v ≤ w
+  | .flt (.fin n1 d1), .flt (.fin n2 d2) => n1 * d2 ≤ n2 * d1
+  | .flt .ninf, .flt (.fin _ _) | .flt .ninf, .flt .pinf | .flt .ninf, .flt .ninf => True
+  | .flt (.fin _ _), .flt .pinf | .flt .pinf, .flt .pinf => True
+  | _, _ => False
+
+theorem clamp_mono (lo hi a b : Int) (h : a ≤ b) (hlh : lo ≤ hi) : clamp lo hi a ≤ clamp lo hi b := by
+  unfold clamp; split <;> split <;> (try split) <;> (try split) <;> omega
+
+theorem clamp_bounds (lo hi a : Int) (hlh : lo ≤ hi) : lo ≤ clamp lo hi a ∧ clamp lo hi a ≤ hi := by
+  unfold clamp; split <;> (try split) <;> omega
+
+theorem intTy_min_le_max (t : IntTy) : t.min ≤ t.max := by cases t <;> decide
+
+/-- the specification is monotone: a larger source value never yields a smaller result -/
+theorem spec_mono (t : IntTy) (k : SrcKind) (v w : Val) (hv : ValidFor k v) (hw : ValidFor k w) (h : Val.le v w) :
+    ∃ a b, spec t v = some a ∧ spec t w = some b ∧ a ≤ b := by
+  have hmm := intTy_min_le_max t
+  match v, w, h with
+  | .int v, .int w, h => exact ⟨_, _, rfl, rfl, clamp_mono _ _ _ _ h hmm⟩
+  | .flt (.fin n1 d1), .flt (.fin n2 d2), h =>
+    have hd1 : (0 : Int) < d1 := by cases k <;> simp [ValidFor] at hv <;> omega
+    have hd2 : (0 : Int) < d2 := by cases k <;> simp [ValidFor] at hw <;> omega
+    refine ⟨_, _, rfl, rfl, clamp_mono _ _ _ _ ?_ hmm⟩
+    -- bring both rationals to the denominator d1 * d2
+    have e1 : n1.tdiv d1 = (d2 * n1).tdiv (d2 * d1) := (Int.mul_tdiv_mul_of_pos n1 d1 hd2).symm
+    have e2 : n2.tdiv d2 = (d1 * n2).tdiv (d1 * d2) := (Int.mul_tdiv_mul_of_pos n2 d2 hd1).symm
+    rw [e1, e2, Int.mul_comm d1 (d2 : Int)]
+    apply Int.tdiv_le_tdiv (Int.mul_pos hd2 hd1)
+    simp only [Val.le] at h
+    rw [Int.mul_comm (d2 : Int) n1, Int.mul_comm (d1 : Int) n2]
+    exact h
+  | .flt .ninf, .flt (.fin n d), _ => exact ⟨_, _, rfl, rfl, (clamp_bounds _ _ _ hmm).1⟩
+  | .flt .ninf, .flt .pinf, _ => exact ⟨_, _, rfl, rfl, hmm⟩
+  | .flt .ninf, .flt .ninf, _ => exact ⟨_, _, rfl, rfl, Int.le_refl _⟩
+  | .flt (.fin n d), .flt .pinf, _ => exact ⟨_, _, rfl, rfl, (clamp_bounds _ _ _ hmm).2⟩
+  | .flt .pinf, .flt .pinf, _ => exact ⟨_, _, rfl, rfl, Int.le_refl _⟩
+
+/-- MONOTONE: for every generated `ToX`, every built-in source kind and any two values of it, a larger
+    source value never converts to a smaller result (all integers, all rationals, ±Inf) -/
+theorem C10_monotone_builtin :
+    ∀ c ∈ fns, ∀ k v w, Builtin k → ValidFor k v → ValidFor k w → Val.le v w →
+      ∃ a b, c.eval less greater k v = some a ∧ c.eval less greater k w = some b ∧ a ≤ b := by
+  intro c hc k v w hk hv hw h
+  rw [C10_saturates_builtin c hc k v hk hv, C10_saturates_builtin c hc k w hk hw]
+  exact spec_mono c.tgt k v w hv hw h
+
 /-- The FULL statement of the property: every source kind, *including named types over floats*. -/
 def C10_Statement : Prop := Saturates (fun _ => True)
 
